@@ -259,6 +259,9 @@ def binop(I, fr, op, l, r, node):
             alg[at] = alg_weaken(s.a(at), n.a(at))
         return AV(kind=s.kind, items=items, elem=elem, origin=fresh_tok(I, fr, node), tags=tags_of(l, r),
                   indef=indef_of(l, r), alg=alg)
+    if isinstance(op, (ast.Sub, ast.Div, ast.FloorDiv, ast.Pow, ast.Mod)) and l.kind in seq and l.note != "range" and \
+            (r.kind in seq or (r.kind == K_SCALAR and r.origin == frozenset(["lit"]) and (r.has_const() or r.dtype == "int"))) and r.note != "range":
+        I.emit("type-error", fr, node, what="%s between a %s and a %s: unsupported operand types" % (type(op).__name__, l.kind, r.kind))
     if l.kind == K_NONE or r.kind == K_NONE:
         I.emit("type-error", fr, node, what="arithmetic on None")
         return top_av(False, "arithmetic on None", I.atoms)
@@ -407,8 +410,8 @@ def binop(I, fr, op, l, r, node):
         if l.mono and is_nonneg(l.sign) and r.sign in (S_POS, S_NONNEG) and rscalar:
             mono = l.mono
         f0 = l.f0 and r.sign == S_POS
-        if dtype in ("int", "bool") and not (ie is not None and ie >= 0):
-            dtype = "real"
+        if dtype in ("int", "bool") and ((ie is not None and ie < 0) or (ie is None and r.sign in (S_NEG, S_NONPOS))):
+            dtype = "real"          # int ** int stays an int for a non-negative exponent (sizes: 2 ** k); a negative one gives a float
         if l.sym is not None and r.sym is not None:
             sym = opaque_sym("pow", l.sym, r.sym)
     elif isinstance(op, (ast.BitAnd, ast.BitOr, ast.BitXor)):
@@ -464,7 +467,8 @@ def binop(I, fr, op, l, r, node):
             if at_ in sym.atoms() and sym + LinExpr(at_) == n_ - 1:
                 ext = ("hi", key_)            # len(mask) - 1 - argmax(mask reversed): the last True position
     return AV(kind=kind, dtype=dtype, origin=origin, shape=shape, sym=sym, alg=alg, sign=sign, mono=mono,
-              const=c, expo=expo, tags=tags_of(l, r), indef=indef_of(l, r), f0=f0, ext=ext, parts=_ap_binop(op, l, r),
+              const=c, expo=expo, tags=tags_of(l, r) | (frozenset(["div:true"]) if (isinstance(op, ast.Div) and kind == K_SCALAR) else frozenset()),
+              indef=indef_of(l, r), f0=f0, ext=ext, parts=_ap_binop(op, l, r),
               note=pwnote if (pwnote is not None and c is _NOCONST) else
               ("integral" if (isinstance(op, (ast.Add, ast.Sub, ast.Mult)) and kind == K_SCALAR and
                               all(x.dtype in ("int", "bool") or x.note == "integral" for x in (l, r))) else None), rel=rel)
@@ -1159,6 +1163,8 @@ def _isinstance(I, fr, args, node):
         return I.unmodelled(fr, node, "isinstance arity")
     x, t = args
     names = _type_names_of(I, t)
+    if names is None and t.kind in (K_SCALAR, K_ARRAY, K_LIST, K_STR, K_BOOL, K_NONE, K_DICT) or (names is None and t.kind == K_OBJ and t.obj is not None):
+        I.emit("type-error", fr, node, what="isinstance() second argument is a value, not a type: TypeError")
     if names is None:
         return AV(kind=K_BOOL, dtype="bool", shape=())
     for n in names:
@@ -1191,6 +1197,8 @@ def _isinstance(I, fr, args, node):
 
 
 def _hasattr(I, fr, args, node):
+    if len(args) == 2 and args[1].kind in (K_OBJ, K_ARRAY, K_LIST, K_SCALAR, K_TUPLE, K_DICT, K_NONE) and not args[1].indef:
+        I.emit("type-error", fr, node, what="hasattr() attribute name is not a string: TypeError")
     if len(args) != 2 or not (args[1].has_const() and isinstance(args[1].const, str)):
         return AV(kind=K_BOOL, dtype="bool", shape=())
     x, name = args[0], args[1].const
@@ -1458,6 +1466,21 @@ LIB_SIG = {"numpy.interp": ("x", "xp", "fp"), "scipy.signal.resample": ("x", "nu
            "numpy.outer": ("a", "b"), "numpy.dot": ("a", "b"), "numpy.mean": ("a", "axis")}
 
 
+def definitely_not_integer(av):
+    """a scalar that is a Python / NumPy float for certain (true division, a float literal, a float-valued library result) and was not
+    converted by int(): used where Python or NumPy insist on an integer (slice bounds, lengths, shapes, fft n)"""
+    if av is None or av.kind != K_SCALAR or av.dtype != "real" or av.indef:
+        return False
+    if av.has_const():
+        return isinstance(av.const, float)
+    return bool(av.tags & frozenset(["div:true", "round:ceil", "round:floor", "round:nearest"]))      # float-typed even when integral-valued
+
+
+INT_ARGS = {"numpy.fft.fft": ((1, "n"),), "numpy.fft.ifft": ((1, "n"),), "numpy.fft.rfft": ((1, "n"),), "scipy.fft.fft": ((1, "n"),),
+            "scipy.fftpack.fft": ((1, "n"),), "numpy.zeros": ((0, "shape"),), "numpy.ones": ((0, "shape"),), "numpy.empty": ((0, "shape"),),
+            "scipy.signal.resample": ((1, "num"),), "numpy.linspace": ((2, "num"),), "numpy.logspace": ((2, "num"),)}
+
+
 def partial_empty(av):
     """an np.empty buffer of which, provably, not every element has been written: every store so far was one of the recognised regions
     (first / last element, all but the first / last, everything) and together they do not cover the array"""
@@ -1470,6 +1493,16 @@ def partial_empty(av):
 
 
 def call_lib(I, fr, name, args, kwargs, node):
+    for pos_, kw_ in INT_ARGS.get(name, ()):
+        a_ = args[pos_] if pos_ < len(args) else kwargs.get(kw_)
+        if isinstance(a_, AV) and definitely_not_integer(a_):
+            I.emit("type-error", fr, node, what="%s(%s=<float>): an integer is required" % (name, kw_))
+    ax_ = kwargs.get("axis")
+    if isinstance(ax_, AV) and args and isinstance(args[0], AV) and args[0].kind == K_ARRAY and args[0].shape is not None and \
+            int_const(ax_) is not None and not isinstance(int_const(ax_), bool) and name not in ("numpy.expand_dims", "numpy.stack", "numpy.insert",
+                                                                                                   "numpy.concatenate", "numpy.take", "numpy.delete") and \
+            not (-len(args[0].shape) <= int_const(ax_) < len(args[0].shape)) and len(args[0].shape) >= 1:
+        I.emit("type-error", fr, node, what="%s(axis=%d) on an array of %d dimension(s): AxisError" % (name, int_const(ax_), len(args[0].shape)))
     for a_ in args:
         if isinstance(a_, AV) and partial_empty(a_):
             I.emit("uninit-read", fr, node, what="%s reads an np.empty buffer of which only %s was written" % (name, sorted(a_.note[2]) or "nothing"))
